@@ -298,6 +298,11 @@ def cost_table(ch: Choices, model: dict, label: str) -> List[List[int]]:
     rows = []
     for _ in model["shr"]:
         rows.append([1 + ch.choose(3, label) for _ in range(width)])  # strictly positive, ties frequent
+    if ch.chance(1, 3, label + ".zero"):
+        # like the null diagonal of the shipped TSP cost matrices: the cost heuristics skip non-positive costs; at most
+        # one such value per row, so that a domain that can still be branched on always has a priced value
+        for r in rows:
+            r[ch.choose(width, label + ".zero.at")] = 0
     return rows
 
 
